@@ -207,3 +207,8 @@ def generate(textx):
         except TextXError as e:
             logger.error("ERROR: %s", str(e))
             sys.exit(1)
+
+        except (OSError, UnicodeError) as e:
+            # A model (or a file it imports) can not be read.
+            logger.error("ERROR: %s", str(e))
+            sys.exit(1)
